@@ -62,6 +62,18 @@ Theorem not_implemented_only_on_repeat : forall fuel d left,
 Proof. exact nf_not_implemented_repeat. Qed.
 Print Assumptions not_implemented_only_on_repeat.
 
+(* the result, and every yielded step, lies in the input's interchanger-equivalence
+   class ("reachable from the input by interchanges alone") *)
+Theorem normal_form_in_input_class : forall fuel d left d', normal_form fuel d left = Ok d' ->
+  interchanger_equiv d d'.
+Proof. exact normal_form_equiv. Qed.
+Print Assumptions normal_form_in_input_class.
+
+Theorem normalize_steps_in_input_class : forall fuel d left tr, wf d ->
+  normalize fuel d left = Ok tr -> Forall (interchanger_equiv d) tr.
+Proof. exact normalize_equiv. Qed.
+Print Assumptions normalize_steps_in_input_class.
+
 (* ---- PARTIAL: the statements below are NOT asserted (no confluence / termination
    proof of the interchanger rewriting system, arXiv:1804.07832, in this development).
    The check stands in for them with an exhaustive search of interchanger classes. *)
